@@ -10,6 +10,15 @@ for pid in sys.argv[2:]:
     if not os.path.exists(wt):
         subprocess.run(["git", "-C", "/repo", "worktree", "add", "--detach", wt, "HEAD"], check=True, capture_output=True)
     p = props[pid]
+    extra = ""
+    if wave.isdigit() and int(wave) >= 4:
+        extra = ("For this round, at least ONE of your three changes must be made OUTSIDE the files listed under "
+                 "'Relevant code' — in a shared module the property depends on indirectly (for example comm.py, task.py, "
+                 "core.py, pdu.py, iocb.py, capability.py, singleton.py, object.py, constructeddata.py, primitivedata.py, "
+                 "errors.py, vlan.py, netservice.py, appservice.py, app.py — whichever are not already listed) — such that "
+                 "THIS property breaks while the change looks unrelated to it; and at least one must only manifest after a "
+                 "LONG or UNUSUAL history (many operations, wrap-arounds, reuse after completion, objects reused across "
+                 "calls, a second instance in the same process).\n\n")
     tried = []
     for m in sorted(glob.glob("/verif/seeded/%s-*/meta.json" % pid)):
         tried.append("- " + str(json.load(open(m)).get("summary", "")).replace("\n", " ")[:300])
@@ -46,7 +55,7 @@ operation) — NOT ones that any ordinary use would expose immediately. Make the
 refactorings/optimisations or honest mistakes a maintainer could make. Make the three changes differ in kind
 (different clauses of the property, different functions).
 
-Changes ALREADY tried by others — do NOT repeat these or close variants; find different code paths, clauses,
+{extra}Changes ALREADY tried by others — do NOT repeat these or close variants; find different code paths, clauses,
 boundaries and mechanisms:
 {chr(10).join(tried) if tried else '- (none yet)'}
 
